@@ -71,3 +71,17 @@ Proof.
   unfold chk_ranges_complete. intros H id k v Hin Hw Hd Hc. rewrite forallb_forall in H. specialize (H id Hin).
   rewrite Hw, Hd, Hc in H. destruct (position T id); [eauto|discriminate].
 Qed.
+
+Lemma chk_plus_api_sound T : chk_plus_api T = true ->
+  forall row a b ka va kb vb, In row (rngs T) -> In a (concat row) -> In b (concat row) ->
+  decompose a = Some (ka, va) -> decompose b = Some (kb, vb) ->
+  satisfies T b [a ++ ["+"%char]] = Ok (ver_leb va vb) /\ satisfies T (a ++ ["+"%char]) [b] = Ok (ver_leb va vb).
+Proof.
+  unfold chk_plus_api. intros H row a b ka va kb vb Hr Ha Hb Da Db. rewrite forallb_forall in H. specialize (H row Hr).
+  rewrite forallb_forall in H. specialize (H a Ha). rewrite forallb_forall in H. specialize (H b Hb).
+  rewrite Da, Db in H.
+  assert (K : forall r w, bool_res_eqb r w = true -> r = Ok w).
+  { intros r w E. destruct r as [x| | |]; simpl in E; try discriminate. apply Bool.eqb_prop in E. subst. reflexivity. }
+  destruct (bool_res_eqb (satisfies T b [a ++ ["+"%char]]) (ver_leb va vb)) eqn:E1; [|discriminate].
+  split; apply K; assumption.
+Qed.
